@@ -104,7 +104,7 @@ Section Emit.
     | TPseudo p => Some (if use_actual_type (o_fw o) then pseudo_actual p
                          else ([($"json_to_models.dynamic_typing", Some [pseudo_cls_name p])], pseudo_cls_name p))
     | TLit _ ls => Some (if use_literals (o_fw o) && lit_render_ok (o_maxlit o) ls
-                         then ([T $"Literal"], $"Literal[" ++ join COMMA_SP (map json_escape ls) ++ $"]")
+                         then ([T $"Literal"], $"Literal[" ++ join COMMA_SP (map json_escape_raw ls) ++ $"]")
                          else ([], $"str"))
     | TOpt x => match print_ty o x with Some (i, n) => Some (i ++ [T $"Optional"], $"Optional[" ++ n ++ $"]") | None => None end
     | TList x => match print_ty o x with Some (i, n) => Some (i ++ [T $"List"], $"List[" ++ n ++ $"]") | None => None end
